@@ -815,3 +815,17 @@ def result_payload(ctl, extra=None):
     if extra:
         d.update(extra)
     return d
+
+
+def call_in_order(loop, base, items):
+    """Schedule (at, fn, args) items; items due at the same instant run in list order (loop.call_at
+    gives no order guarantee for equal times)."""
+    groups = {}
+    for at, fn, args in items:
+        groups.setdefault(at, []).append((fn, args))
+
+    def run(group):
+        for fn, args in group:
+            fn(*args)
+    for at in sorted(groups):
+        loop.call_at(base + at, run, groups[at])
